@@ -273,8 +273,44 @@ fn reject_class(short: &str) -> String {
     words.join("-").replace(['"', '\''], "")
 }
 
+/// Text payloads: one small circuit with symbol names and comment texts that start / end with
+/// blanks, tabs, carriage returns or line feeds, or look like other syntax.
+fn text_values<L: LitName>() -> Vec<OrderedAig<L>> {
+    use flussab_aiger::aig::SymbolTarget;
+    use std::borrow::Cow;
+    let names = ["", " ", " a", "  a", "a ", "a  ", "\ta", "a\t", "a\rb", "\r", "a\r", "c", "c0", "i0", "i0 x", "0", "\u{e9}", " \u{2713} ", "#"];
+    let comments = ["", "\n", "x", "x\n", "x\r", "\r", "\r\n", "x\r\n", "a\r\nb", "a\n\nb", "\n\n", " lead", "trail ", "\tx", "c\n", "c", "i0 x", "\u{e9}\u{2713}", "x\n\r"];
+    let base = |symbols: Vec<Symbol<'static>>, comment: Option<String>| OrderedAig {
+        max_var_index: 1,
+        input_count: 1,
+        latches: vec![],
+        outputs: vec![L::from_code(2)],
+        bad_state_properties: vec![],
+        invariant_constraints: vec![L::from_code(3)],
+        justice_properties: vec![],
+        fairness_constraints: vec![],
+        and_gates: vec![],
+        symbols,
+        comment,
+    };
+    let mut out = Vec::new();
+    for n in names {
+        for target in [SymbolTarget::Input(0), SymbolTarget::Output(0), SymbolTarget::InvariantConstraint(0)] {
+            for c in [None, Some("note")] {
+                out.push(base(vec![Symbol { target, name: Cow::Borrowed(n) }], c.map(|s| s.to_string())));
+            }
+        }
+    }
+    for c in comments {
+        out.push(base(vec![], Some(c.to_string())));
+        out.push(base(vec![Symbol { target: SymbolTarget::Output(0), name: Cow::Borrowed("o") }], Some(c.to_string())));
+    }
+    out
+}
+
 fn run_lit<L: LitName>(tier: Tier, report: &mut Report) {
-    let vals = values::<L>(tier);
+    let mut vals = values::<L>(tier);
+    vals.extend(text_values::<L>());
     report.count(&format!("values_{}", L::NAME), vals.len() as u64);
     let total = mc_core::par::par_fold(
         vals.len(),
